@@ -36,7 +36,7 @@ def group_record(g, with_label=True):
             # what the report does with the group: listed or not, discarded because of covalent coupling to which partner type
             'reported': bool(g.use_in_calculations()) if hasattr(g, 'use_in_calculations') else None,
             'discarded': (g.coupled_titrating_group.residue_type if getattr(g, 'coupled_titrating_group', None) is not None else None),
-            'atom': (g.atom.chain_id, g.atom.res_num, g.atom.icode, g.atom.name, g.atom.res_name)}
+            'atom': (g.atom.chain_id, g.atom.res_num, g.atom.icode, g.atom.name, g.atom.res_name), 'atom_type': g.atom.type}
 
 
 def record(mol, confs=None, with_label=True):
